@@ -208,9 +208,73 @@ fn large_case(f32_: bool, n: usize, idx: usize) -> impl Strategy<Value = Case> {
     })
 }
 
+/// One batch call over more observations than the float type counts exactly (f32: 2^24): the data cycle through
+/// 1, 2, 3, 4, so the exact moments follow from the counts of each value without touching the elements.
+#[derive(Clone, Debug, Serialize, Deserialize)]
+pub struct HugeCase {
+    pub f32: bool,
+    pub n: usize,
+    pub conf: Conf,
+    /// 0: one-shot ci, 1: from_iter then sample_count / ci_mean, 2: new + one extend
+    pub style: u8,
+}
+pub fn huge_case(c: &HugeCase, obs: &mut Obs) -> PResult {
+    fn go<F: Fl>(c: &HugeCase, obs: &mut Obs) -> PResult {
+        use num_bigint::BigInt;
+        let n = c.n;
+        let data: Vec<F> = (0..n).map(|i| F::from64((i % 4 + 1) as f64)).collect();
+        let cnt = |k: usize| (n / 4 + usize::from(n % 4 >= k)) as u64; // number of elements equal to k (k = 1..4)
+        let (mut s1, mut s2) = (BigInt::from(0u8), BigInt::from(0u8));
+        for k in 1..=4usize {
+            s1 += BigInt::from(cnt(k)) * BigInt::from(k);
+            s2 += BigInt::from(cnt(k)) * BigInt::from(k * k);
+        }
+        let mom = crate::exact::Moments { n, s1: crate::exact::Dy { num: s1.clone(), exp: 0 }, s2: crate::exact::Dy { num: s2, exp: 0 }, sa: crate::exact::Dy { num: s1, exp: 0 } };
+        let r = MeanRef::from_moments(mom);
+        obs.evals(2);
+        let conf = c.conf.get();
+        let (out, count) = match c.style {
+            0 => (call(|| Arithmetic::<F>::ci(conf, &data)), None),
+            1 => {
+                let st = <Arithmetic<F> as StatisticsOps<F>>::from_iter(&data);
+                match st {
+                    Ok(st) => (call(|| st.ci_mean(conf)), Some(st.sample_count())),
+                    Err(e) => (Out::Err(e), None),
+                }
+            }
+            _ => {
+                let mut st = Arithmetic::<F>::new();
+                match st.extend(&data) {
+                    Ok(()) => (call(|| st.ci_mean(conf)), Some(st.sample_count())),
+                    Err(e) => (Out::Err(e), None),
+                }
+            }
+        };
+        if let Some(k) = count {
+            ensure!(k == n, "C01/sample_count", "{}: one batch of {n} observations gives sample_count {k}", F::NAME);
+        }
+        let i = match out {
+            Out::Ok(i) => i,
+            o => return crate::engine::fail("C01/error_on_valid_sample", format!("{}: one batch of {n} observations cycling 1,2,3,4: {}", F::NAME, o.describe())),
+        };
+        match compare_mean_interval::<F>(&r, &c.conf, (n - 1) as f64, 0, bounds(&i)) {
+            Ok(ratio) => obs.headroom(&format!("huge_batch/{}", F::NAME), ratio, || json!({"n": n, "conf": c.conf})),
+            Err(msg) => return crate::engine::fail(format!("C01/bounds/{}", c.conf.kind_name()), format!("one batch of {n} observations ({}, style {}): {msg}", F::NAME, c.style)),
+        }
+        obs.class(&format!("huge_batch/{}", F::NAME));
+        obs.nontrivial(&(c.f32, n, c.conf.kind, c.conf.l().to_bits(), c.style));
+        Ok(())
+    }
+    if c.f32 {
+        go::<f32>(c, obs)
+    } else {
+        go::<f64>(c, obs)
+    }
+}
+
 pub fn run(run: &mut Run) {
     run.technique = "proptest random search with shrinking against an exact-arithmetic (big-integer) reference and an independent Student-t / normal quantile (Gauss–Legendre quadrature), with derived tolerances".into();
-    run.rule = "samples (n 2..5000 random, plus large n around 100 000; f32/f64; six shapes; conditioning kappa up to the domain limit, a small fraction beyond) x confidence (grid/uniform/log near the ends, three kinds) x eight call styles (two of them through a container whose iterator has a loose size_hint); non-trivial = n >= 2, s > 0, inside the conditioning domain and tolerance < 0.1 % of the half-width; distinct = (type, n, kind, level, data hash)".into();
+    run.rule = "samples (n 2..5000 random, plus large n around 100 000 and single batches just beyond 2^24 observations (exact moments from the counts of a 1,2,3,4 cycle); f32/f64; six shapes; conditioning kappa up to the domain limit, a small fraction beyond) x confidence (grid/uniform/log near the ends, three kinds) x eight call styles (two of them through a container whose iterator has a loose size_hint); non-trivial = n >= 2, s > 0, inside the conditioning domain and tolerance < 0.1 % of the half-width; distinct = (type, n, kind, level, data hash)".into();
     crate::meanref::selftest_into(run);
     let (cases, shards, max_n) = match run.tier {
         crate::engine::Tier::Quick => (200_000u32, 32usize, 2000usize),
@@ -270,6 +334,27 @@ pub fn run(run: &mut Run) {
     }
     run.assumptions.push("tolerances of DESIGN §4.2/§4.3: rounding error of any reasonable implementation in the sample type plus the measured accuracy envelope of statrs' inverse t CDF; errors below that are invisible".into());
     run.assumptions.push("around n = 100 000 (dof within 2 of 100 000) both the t and the normal branch are accepted ('about 100 000')".into());
+    // one batch beyond 2^24 observations (the last integer an f32 counter can hold), and the same in f64 as a control
+    {
+        let mut jobs = vec![];
+        let sizes: Vec<usize> = run.tier.pick(vec![(1 << 24) + 4099], vec![(1 << 24) + 1, (1 << 24) + 4099, 20_000_003, (1 << 25) + 7]);
+        for (i, &n) in sizes.iter().enumerate() {
+            for (j, f32_) in [true, false].into_iter().enumerate() {
+                if !f32_ && i > 0 {
+                    continue;
+                }
+                jobs.push(HugeCase { f32: f32_, n, conf: Conf::new(((i + j) % 3) as u8, [0.95, 0.9, 0.3][(i + j) % 3]), style: ((i + j) % 3) as u8 });
+                if f32_ {
+                    jobs.push(HugeCase { f32: f32_, n, conf: Conf::new(0, 0.99), style: ((i + j + 1) % 3) as u8 });
+                }
+            }
+        }
+        let jr = &jobs;
+        run.par(jobs.len(), |j, obs| {
+            crate::engine::case_on(obs, "huge_batch", &jr[j], huge_case);
+        });
+        run.require_class("huge_batch/f32");
+    }
     crate::props::history::add(run, "C01", &[crate::props::history::ARITH], 3_000, 200_000);
 }
 
@@ -277,6 +362,7 @@ pub fn replay(sub: &str, v: &Value, obs: &mut Obs) -> Option<PResult> {
     Some(match sub {
         "history" => crate::props::history::case(&de(v), obs),
         "random" | "large" => case(&de(v), obs),
+        "huge_batch" => huge_case(&de(v), obs),
         _ => return None,
     })
 }
